@@ -3,6 +3,7 @@
 undo; any check that fires is a false alarm of the machinery."""
 import subprocess, sys, os, glob, json
 env = dict(os.environ, GOFLAGS='-mod=mod', GOPROXY='off', GOSUMDB='off', GOTOOLCHAIN='local'); env.pop('GOWORK', None)
+env['GZV_EVIDENCE_DIR'] = '/tmp/gzv-evidence-scratch'
 base = sys.argv[1]
 props = ['C%02d' % i for i in range(1, 21)]
 if subprocess.run(['git', 'diff', '--quiet'], cwd='/repo').returncode != 0:
